@@ -10,6 +10,7 @@ CONSTANTS
     Fns = {"two", "inc"}
     UseData = FALSE
     ForwardRefs = TRUE
+    WithJac = FALSE
     EmitOn = TRUE
 INIT Init
 NEXT Next
